@@ -59,6 +59,9 @@ var c11Variants = []c11RuleVariant{
 	{"several-mixed-case", func(l string) []string { return []string{"Zulu-" + l, l, "Bravo-" + l, "mike-" + l} }},
 }
 
+// group rules only: entries written with padding (as `UPSTREAM_DEFAULT_GROUPS="eng, ops"` produces them)
+var c11PaddedGroups = c11RuleVariant{"padded-entries", func(l string) []string { return []string{l, " ops", "qa "} }}
+
 func c11Run(c *fw.Ctx) {
 	c.Retries = 2 // socket-based harness: tolerate a transient glitch while replaying a prefix
 	vtime.SetManual(harness.T0)
@@ -66,15 +69,20 @@ func c11Run(c *fw.Ctx) {
 	const V = 60 * time.Second
 	envs := &envCache{}
 	defer envs.close()
-	dirAnswers := []string{"in-listed-group", "in-no-group", "directory-error", "in-group-named-with-listed-name-as-prefix", "in-group-whose-name-is-a-prefix-of-listed", "directory-unavailable-503", "directory-rate-limited-429", "in-group-whose-name-differs-only-in-case"}
+	dirAnswers := []string{"in-listed-group", "in-no-group", "directory-error", "in-group-named-with-listed-name-as-prefix", "in-group-whose-name-is-a-prefix-of-listed", "directory-unavailable-503", "directory-rate-limited-429", "in-group-whose-name-differs-only-in-case",
+		// the user's membership changes after login: out of the listed group `eng`, into another group (`mike-eng`,
+		// which the several-entries rule also lists)
+		"moves-to-another-group-after-login",
+		// the user is in `ops`, which the padded-entries rule lists as ' ops'
+		"in-group-listed-with-padding"}
 
-	varAddr, varDom, varGrp, emails := c11Variants, c11Variants, c11Variants, c11Emails
+	varAddr, varDom, varGrp, emails := c11Variants, c11Variants, append(append([]c11RuleVariant{}, c11Variants...), c11PaddedGroups), c11Emails
 	if c.Thorough() {
 		caseVaried := c11RuleVariant{"listed-case-varied", func(l string) []string { return []string{strings.ToUpper(l)} }}
 		second := c11RuleVariant{"other+listed", func(l string) []string { return []string{"zzz-other.test", l} }}
 		varAddr = append(append([]c11RuleVariant{}, c11Variants...), caseVaried, second)
 		varDom = append(append([]c11RuleVariant{}, c11Variants...), caseVaried, second)
-		varGrp = append(append([]c11RuleVariant{}, c11Variants...), second)
+		varGrp = append(append([]c11RuleVariant{}, c11Variants...), c11PaddedGroups, second)
 		emails = append(append([]c11Email{}, c11Emails...),
 			c11Email{"", "empty-email", false},
 			c11Email{" alice@allowed.test", "leading-space", true},
@@ -98,26 +106,52 @@ func c11Run(c *fw.Ctx) {
 			envs.m = nil
 		}
 		e := envs.get(p, harness.ProxyOpts{Valid: V})
-		profile := func() harness.AuthAnswer {
+		// what the scripted authenticator says at /profile: like the real one, the groups AMONG THOSE ASKED ABOUT
+		// that the user is in (exact names) — or, second flavour, every group the user is in, asked about or not
+		echoAll := x.Choose("authenticator-answers-with", 2) == 1
+		afterLogin := false
+		userGroups := func(later bool) []string {
 			switch dir {
 			case "in-listed-group":
-				return ans(200, `{"email":"x","groups":["eng"]}`)
-			case "in-no-group":
-				return ans(200, `{"email":"x","groups":[]}`)
+				return []string{"eng"}
 			case "in-group-named-with-listed-name-as-prefix":
-				return ans(200, `{"email":"x","groups":["eng-contractors","engineering"]}`)
+				return []string{"eng-contractors", "engineering"}
 			case "in-group-whose-name-is-a-prefix-of-listed":
-				return ans(200, `{"email":"x","groups":["en","e"]}`)
+				return []string{"en", "e"}
 			case "in-group-whose-name-differs-only-in-case":
-				return ans(200, `{"email":"x","groups":["ENG","Eng"]}`)
+				return []string{"ENG", "Eng"}
+			case "moves-to-another-group-after-login":
+				if later {
+					return []string{"mike-eng"}
+				}
+				return []string{"eng"}
+			case "in-group-listed-with-padding":
+				return []string{"ops"}
 			}
-			if dir == "directory-unavailable-503" {
+			return nil
+		}
+		profile := func(cl *harness.AuthCall) harness.AuthAnswer {
+			switch dir {
+			case "directory-unavailable-503":
 				return ans(503, "unavailable")
-			}
-			if dir == "directory-rate-limited-429" {
+			case "directory-rate-limited-429":
 				return ans(429, "slow down")
+			case "directory-error":
+				return ans(500, "directory unavailable")
 			}
-			return ans(500, "directory unavailable")
+			out := []string{}
+			for _, g := range userGroups(afterLogin) {
+				asked := echoAll
+				for _, a := range strings.Split(cl.Form.Get("groups"), ",") {
+					if a == g {
+						asked = true
+					}
+				}
+				if asked {
+					out = append(out, g)
+				}
+			}
+			return ans(200, harness.JSON(map[string]interface{}{"email": "x", "groups": out}))
 		}
 		// the authenticator honours only the most recently issued access token (as an identity provider
 		// does once a token was replaced through a refresh)
@@ -129,7 +163,7 @@ func c11Run(c *fw.Ctx) {
 			case "redeem":
 				a = ans(200, harness.JSON(map[string]interface{}{"access_token": "at", "refresh_token": "rt", "expires_in": 3600, "email": em.Email}))
 			case "profile":
-				a = profile()
+				a = profile(cl)
 				if stale {
 					a = ans(401, `{"error":"token expired"}`)
 				}
@@ -159,6 +193,7 @@ func c11Run(c *fw.Ctx) {
 		verdict := []string{"refused", "-", "-", "-"}
 		if r2.Status == 302 && sc != nil && sc.Value != "" {
 			verdict[0] = "admitted"
+			afterLogin = true
 			// stage 2: a request while no check is due
 			setNow(10)
 			h2 := http.Header{"Cookie": {harness.CookieName + "=" + sc.Value}}
@@ -193,21 +228,23 @@ func c11Run(c *fw.Ctx) {
 			return
 		}
 		// ---- reference ----
-		var facts []string
-		if dir == "in-listed-group" {
-			facts = []string{"eng"}
-		}
+		// (what the directory says about the user: at login and at the request that relies on it, and later)
+		factsAt := func(stage int) []string { return userGroups(stage >= 2) }
+		facts := factsAt(0)
 		want := ruleAdmits(p, em.Email, facts)
 		sat := satisfied(p, em.Email, facts)
-		desc := map[string]interface{}{"rules": p, "email": em.Email, "email_class": em.Class, "directory": dir, "satisfied_rules": sat,
+		desc := map[string]interface{}{"rules": p, "email": em.Email, "email_class": em.Class, "directory": dir, "authenticator_answers_with": map[bool]string{false: "the asked-about groups the user is in", true: "all groups the user is in"}[echoAll], "satisfied_rules": sat,
 			"reference_admits": want, "verdict_login": verdict[0], "verdict_next_request": verdict[1], "verdict_after_validity_ttl": verdict[2], "verdicts": verdict}
-		wantS := map[bool]string{true: "admitted", false: "refused"}[want]
 		stages := []string{"login", "next-request", "after-validity-ttl", "after-token-refresh"}
 		nontrivial := false
 		for i, v := range verdict {
 			if v == "-" {
 				continue
 			}
+			facts := factsAt(i)
+			want := ruleAdmits(p, em.Email, facts)
+			wantS := map[bool]string{true: "admitted", false: "refused"}[want]
+			sat := satisfied(p, em.Email, facts)
 			if i >= 2 && strings.HasPrefix(dir, "directory-") && len(p.Groups) > 0 && !(len(p.Groups) == 1 && p.Groups[0] == "*") {
 				continue // a revalidation that cannot confirm membership refuses (C04); not a rule verdict
 			}
@@ -215,6 +252,9 @@ func c11Run(c *fw.Ctx) {
 				nontrivial = true
 			}
 			if em.Lenient {
+				if strings.Join(facts, ",") != strings.Join(factsAt(0), ",") {
+					continue // the user's memberships changed since login: a different verdict proves nothing here
+				}
 				if v != verdict[0] {
 					key := fmt.Sprintf("C11/inconsistent/%s/%s", p.Name, em.Class)
 					if verdict[0] == "admitted" && i > 0 {
@@ -243,7 +283,7 @@ func c11Run(c *fw.Ctx) {
 			c.Res.Count("positive_reference_admits", 1)
 		}
 		if nontrivial {
-			c.Res.Outcome(fmt.Sprintf("%s|%s|%s|%v", p.Name, em.Class, dir, verdict))
+			c.Res.Outcome(fmt.Sprintf("%s|%s|%s|%v|%v", p.Name, em.Class, dir, echoAll, verdict))
 		}
 		if c.Res.Execs%500 == 3 {
 			c.Res.Sample(desc)
@@ -300,7 +340,7 @@ func init() {
 	fw.Register(&fw.Check{
 		ID:    "C11",
 		Level: "exploration",
-		Rule: "full product on a proxy built like cmd/sso-proxy (validators exactly as proxy.New builds them): rule sets = every combination of {absent, listed value, lone *, * with another value, four hand-written entries in mixed case and no particular order} for addresses, domains and groups (124 policies) x 18 emails (the listed domain with its dot replaced, exact, case-varied, prefix/suffix look-alikes, plus-tagged and dotted variants of a listed address, look-alike domain, sub-domain, domain as prefix, unlisted, two @, empty local part, non-ASCII local part / domain) x directory {in listed group, in none, error 500, unavailable 503, rate-limited 429, only in groups whose names extend a listed name, only in groups whose names are prefixes of a listed name, only in groups whose names differ from the listed one in letter case}; " +
+		Rule: "full product on a proxy built like cmd/sso-proxy (validators exactly as proxy.New builds them): rule sets = every combination of {absent, listed value, lone *, * with another value, four hand-written entries in mixed case and no particular order} for addresses, domains and groups, plus for groups a list with padded entries (149 policies) x 18 emails (the listed domain with its dot replaced, exact, case-varied, prefix/suffix look-alikes, plus-tagged and dotted variants of a listed address, look-alike domain, sub-domain, domain as prefix, unlisted, two @, empty local part, non-ASCII local part / domain) x what the scripted authenticator reports {only the asked-about groups the user is in (as the real one does), every group the user is in} x directory {membership moving from the listed group to another group after login, in a group that the rule lists with padding, in listed group, in none, error 500, unavailable 503, rate-limited 429, only in groups whose names extend a listed name, only in groups whose names are prefixes of a listed name, only in groups whose names differ from the listed one in letter case}; " +
 			"thorough adds rule variants {listed value in upper case, another value + the listed one} and emails {empty, leading/trailing space, case-varied sub-domain, the bare listed domain, a listed address used as local part}; " +
 			"each case logs in through the real callback, sends a request while no check is due, one after the validity TTL and one after the access token ran out and was refreshed (the scripted authenticator honours only the latest token it issued); oracle = the documented any-of semantics and the same verdict at all three stages (emails whose reading the statement leaves open: consistency only); " +
 			"distinct_nontrivial = distinct (rule set, email class, directory, verdict triple) among cases admitted at login",
